@@ -119,7 +119,13 @@ func (m *Matcher) pop() {
 }
 
 func (m *Matcher) merge() {
+	set := m.setBindings[len(m.setBindings)-1]
 	m.setBindings = m.setBindings[:len(m.setBindings)-1]
+	if len(m.setBindings) != 0 {
+		// The enclosing frame has to know about these bindings, too, in
+		// case it has to undo them.
+		m.setBindings[len(m.setBindings)-1] |= set
+	}
 }
 
 func (m *Matcher) Match(a Pattern, b ast.Node) bool {
@@ -635,7 +641,10 @@ func (or Or) Match(m *Matcher, node any) (any, bool) {
 }
 
 func (not Not) Match(m *Matcher, node any) (any, bool) {
+	// Bindings made while matching the negated node must not be observable.
+	m.push()
 	_, ok := match(m, not.Node, node)
+	m.pop()
 	if ok {
 		return nil, false
 	}
